@@ -4,6 +4,10 @@ import gen
 
 OPS = ["~=", "==", "!=", "<=", ">=", "<", ">", "==="]
 WS = ["", "", "", " ", "  ", "\t", " ", "\n"]
+# every code point Python's \s / str.strip() treats as whitespace (the 29 entries of VParse.ws_table), beyond the ASCII ones above
+WS_UNI = ["\x0b", "\x0c", "\r", "\x1c", "\x1d", "\x1e", "\x1f", "\x85", "\xa0", "\u1680", "\u2000", "\u2001", "\u2002", "\u2003", "\u2004",
+          "\u2005", "\u2006", "\u2007", "\u2008", "\u2009", "\u200a", "\u2028", "\u2029", "\u202f", "\u205f", "\u3000"]
+WS_U = WS + WS + WS_UNI + [a + b for a in ("\u2003", "\x85", " ") for b in ("\xa0", "\x1f", "\t")]      # ~1/3 empty, ~1/2 with a non-ASCII space
 
 
 def spec_version(rng, op, v=None, admissible_p=0.9):
@@ -32,7 +36,9 @@ def spec_version(rng, op, v=None, admissible_p=0.9):
     return txt, v, wild
 
 
-def spec_string(rng, op=None, v=None, admissible_p=0.9):
+def spec_string(rng, op=None, v=None, admissible_p=0.9, ws=None):
+    """ws: the pool the three whitespace positions are drawn from (default: the ASCII pool WS; WS_U adds every Unicode space)."""
+    WS = ws or globals()["WS"]
     op = op or rng.choice(OPS)
     if op == "===" and rng.random() < 0.6:
         V3 = v or gen.rand_v(rng, local_p=0.3)
@@ -55,3 +61,92 @@ def related_candidates(rng, V, n=3):
         if rng.random() < 0.3: c = rng.choice(gen.neighbours(rng, c))
         out.append(gen.spell(rng, c, ws=rng.random() < 0.3))
     return out
+
+
+# ---------------------------------------------------------------------------------------------- wider input classes (C03/C04 audit)
+def pad_ws(rng, text, p=0.5):
+    """Surround a candidate text with whitespace Version() strips, Unicode spaces included."""
+    if rng.random() >= p: return text
+    return rng.choice(WS_U) + text + rng.choice(WS_U)
+
+
+def zero_tail(rng, v):
+    """v with 1-4 zero components appended to its release: a ==V.* prefix that only a zero-padded candidate can match."""
+    return replace(v, release=v.release + (0,) * rng.choice([1, 2, 2, 3, 4]))
+
+
+def long_release(rng, v):
+    """a release of 9-14 components"""
+    n = rng.randrange(9, 15)
+    return replace(v, release=(v.release + tuple(gen.small(rng) for _ in range(n)))[:n])
+
+
+def related_structured(rng, V, n=3):
+    """Structured candidates near V: neighbours, equal shapes, releases cut back into / padded beyond V's zero tail, a few unrelated."""
+    if V is None: return [gen.rand_v(rng) for _ in range(n)]
+    nb = gen.neighbours(rng, V) + [V, gen.rand_v(rng)]
+    rel = list(V.release)
+    k = len(rel)
+    while k > 1 and rel[k - 1] == 0: k -= 1
+    trunc = []
+    for j in range(k, len(rel)):                                      # every truncation inside the zero tail (multi-zero padding must succeed)
+        trunc.append(replace(V, release=tuple(rel[:j])))
+        trunc.append(replace(V, release=tuple(rel[:j]), pre=rng.choice([None, ("rc", 1)]), post=rng.choice([None, 0]), local=rng.choice([None, ("x",)])))
+    if len(rel) > 2: nb.append(replace(V, release=tuple(rel[:rng.randrange(1, len(rel) - 1)])))       # a proper prefix (matches only if the rest is zero)
+    nb.append(replace(V, release=V.release + (0,) * rng.randrange(3, 8)))                             # far longer than the specifier
+    nb.append(replace(V, release=V.release + (0,) * rng.randrange(1, 4) + (1,)))
+    out = []
+    for _ in range(n):
+        if trunc and rng.random() < 0.4: c = rng.choice(trunc)
+        else:
+            c = rng.choice(nb)
+            if rng.random() < 0.3: c = rng.choice(gen.neighbours(rng, c))
+        out.append(gen.fix_local(c))
+    return out
+
+
+CONFUSABLE = {"k": "\u212a", "K": "\u212a", "i": "\u0130", "I": "\u0130", "s": "\u017f", "S": "\u017f"}
+
+
+def confuse(rng, text, only=None):
+    """Replace some k/i/s by U+212A KELVIN SIGN / U+0130 / U+017F (the non-ASCII characters re.IGNORECASE or str.lower() relate to ASCII letters).
+    Returns (text', set of the substitutes used)."""
+    out, used = [], set()
+    for ch in text:
+        r = CONFUSABLE.get(ch)
+        if r is not None and (only is None or r in only) and rng.random() < 0.6:
+            out.append(r); used.add(r)
+        else: out.append(ch)
+    return "".join(out), used
+
+
+# ---- an independent structured reading of the statement of C03 (third leg: neither the implementation nor the Coq model/sem) ----
+def _pub(c): return replace(c, local=None)
+def _is_pre(v): return v.pre is not None or v.dev is not None
+def _is_post(v): return v.post is not None
+def _base(v): return gen.rank(gen.V(v.epoch, v.release, None, None, None, None))
+
+
+def oracle(op, V, wild, c):
+    """contains(c, prereleases=True) of the specifier op V (op V.* if wild), from the structured versions only."""
+    R = gen.rank
+    if op in ("==", "!="):
+        if wild:
+            n = len(V.release)
+            padded = (tuple(c.release) + (0,) * n)[:n]
+            r = c.epoch == V.epoch and padded == tuple(V.release)
+        elif V.local is None: r = R(_pub(c)) == R(V)
+        else: r = R(c) == R(V)
+        return r if op == "==" else not r
+    if op == "~=":
+        P = gen.V(V.epoch, V.release[:-1], None, None, None, None)
+        return oracle(">=", V, False, c) and oracle("==", P, True, c)
+    if op == "<=": return R(_pub(c)) <= R(V)
+    if op == ">=": return R(_pub(c)) >= R(V)
+    if op == "<":
+        if not R(c) < R(V): return False
+        return not (not _is_pre(V) and _is_pre(c) and _base(c) == _base(V))
+    if op == ">":
+        if not R(_pub(c)) > R(V): return False                                # a local version of V is not greater than V here
+        return not (not _is_post(V) and _is_post(c) and _base(c) == _base(V))
+    raise ValueError(op)
